@@ -438,7 +438,7 @@ def opEvents (ids : List Nat) (op out : String) : Option (List Ev) :=
               | _ => none
             | [] => none
           else some tailEvs
-        else if name == "sd" || name == "crash" || name == "restart" || name == "stop" then
+        else if name == "sd" || name == "crash" || name == "restart" || name == "stop" || name == "cc" then
           some ([Ev.mark me name] ++ tailEvs)
         else some tailEvs
 
@@ -497,13 +497,22 @@ def monC02 (_learners : List Nat) (evs : List Ev) : String :=
     | some _ => "bad term-regressed"
     | none => "ok"
 
+/-- chronologically: a `cc` on `n`, later a `restart` of `n`, later a request-free win of `n` -/
+def expandedThenRestartedBefore (evs : List Ev) (n : Nat) : Bool :=
+  let isMark (w : String) : Ev → Bool := fun | .mark m x => m == n && x == w | _ => false
+  let isSkip : Ev → Bool := fun | .skip m _ => m == n | _ => false
+  let afterCc := (evs.dropWhile (fun e => !isMark "cc" e)).drop 1
+  let afterRestart := (afterCc.dropWhile (fun e => !isMark "restart" e)).drop 1
+  afterRestart.any isSkip
+
 def monC01 (evs : List Ev) : String :=
   if leadersOK (leadersOf evs) then
     (if (leadersOf evs).isEmpty then "skip" else "ok")
-  -- open finding F25 (C28): a restarted node rebuilds its membership from the configuration file; a node that was
-  -- started alone and expanded later believes it is alone again and elects itself (outside C01's static-membership
-  -- hypothesis)
-  else if evs.any (fun | .skip n _ => hasMarkOn evs n "restart" | _ => false) then
+  -- open finding F25 (C28): a node that was started alone, expanded by configuration changes and then restarted
+  -- rebuilds its membership from the configuration file, believes it is alone again and elects itself without
+  -- asking anybody (outside C01's static-membership hypothesis). Only exactly this mechanism is matched:
+  -- cc on n ... restart of n ... request-free win of n with no voters.
+  else if evs.any (fun | .skip n v => v == 0 && expandedThenRestartedBefore evs n | _ => false) then
     "bad two-leaders-after-restart-with-initial-config"
   else "bad two-leaders"
 
